@@ -434,9 +434,18 @@ func init() {
 			h := c12History(gWith(genesis3(), "lazyRewardBlocks", "4"), "1")
 			return h
 		}, Menu: c12Menu(), WithEnv: true, NAppend: 2, MaxD: 2, MaxDTh: 2, Core: coreAppend(blocksSet(3, 4, 5, 6), 4, 0)})
+		// a LONG chain: the releases and refunds straddle height 256, where a one-byte height rolls over (key order of the
+		// unbonding ledger, any narrowed or byte-wise compared height)
+		fams = append(fams, family{Name: "unbonding/across-height-256", Base: func() sim.History {
+			h := sim.History{Gen: genesis3(), Blocks: []sim.Block{blk(stk("U0", "V1", "3R"), stk("U1", "V1", "2R"), stk("U0", "V1", "1R"))}}
+			h.Blocks = append(h.Blocks, emptyBlocks(250)...) // heights 2..251
+			h.Blocks = append(h.Blocks, blk(unstk("U0", "U0", "V1", 0)), blk(unstk("U1", "U1", "V1", 0)), blk(unstk("U0", "U0", "V1", 1)))
+			h.Blocks = append(h.Blocks, emptyBlocks(6)...)
+			return h
+		}, Menu: c12Menu(), NAppend: 1, MaxD: 1, MaxDTh: 2, OnlyBlocks: []int{250, 251, 252, 253, 254, 255, 256}, Restarts: []int64{253, 255}})
 		return &modelCheck{id: "C12", owners: map[string]bool{"C12": true}, balWhy: []string{"refund"}, families: fams,
 			meta: modelMeta("deviation-bounded exhaustive history exploration with reference model of the unbonding queue",
-				"C12 families: stakes by two delegators and the validator itself, unstake attempts by owner / delegatee / stranger / another delegator, 1-3 stakes unbonding concurrently (also force-released by the validator leaving), and a governance change of the unbonding period (2->1, 2->4 and 4->1) landing before, at and after releases; 10 blocks; D<=2 (thorough 3). "+
+				"C12 families: stakes by two delegators and the validator itself, unstake attempts by owner / delegatee / stranger / another delegator, 1-3 stakes unbonding concurrently (also force-released by the validator leaving), and a governance change of the unbonding period (2->1, 2->4 and 4->1) landing before, at and after releases; 10 blocks; D<=2 (thorough 3); plus a 260-block history whose releases and refunds straddle height 256 (one-byte roll-over of a height: key order of the unbonding ledger), single deviations in blocks 251-257, restarts after 253 / 255. "+
 					"Oracle: an unstake succeeds only for the stake's owner; from release on the stake is in the unbonding list (and carries no power: C11's sums); it is refunded exactly once, in full (power x 10^18), to the owner, at release + the period in force at release and not before; the unbonding list and every touched balance equal the model's at every height.")}
 	})
 }
@@ -493,9 +502,16 @@ func init() {
 				return h
 			}, Menu: c13Menu(), WithEnv: true, NAppend: 1, MaxD: 1, MaxDTh: 2, Restarts: []int64{5, 6, 7}})
 		}
+		// a LONG chain: issuance, withdrawals and missed signatures around height 256 (one-byte roll-over of a height)
+		fams = append(fams, family{Name: "rewards/across-height-256", Base: func() sim.History {
+			h := sim.History{Gen: genesis3(), Blocks: []sim.Block{blk(), blk(stk("U0", "V1", "3R")), blk(stk("U1", "V0", "2R"))}}
+			h.Blocks = append(h.Blocks, emptyBlocks(248)...) // heights 4..251
+			h.Blocks = append(h.Blocks, blk(wdr("V0", "1000")), blk(), blk(wdr("U0", "21")), blk(), blk(wdr("V0", "7")), blk(), blk(), blk())
+			return h
+		}, Menu: c13Menu(), WithEnv: true, NAppend: 1, MaxD: 1, MaxDTh: 2, OnlyBlocks: []int{252, 253, 254, 255, 256, 257}, Restarts: []int64{254, 256}})
 		return &modelCheck{id: "C13", owners: map[string]bool{"C13": true}, balWhy: []string{"withdraw"}, families: fams,
 			meta: modelMeta("deviation-bounded exhaustive history exploration with reference model of reward issuance and withdrawal",
-				"C13 families: staking changes in blocks 2-3 (so that the 4-block provenance lag is crossed inside the 9-block horizon) x per-block signing patterns of the 3 validators (absent-signer slot of every block) x withdrawal requests {0, 1, exact, exact+1, twice in a block, excessive, by an account without rewards}; D<=2 (thorough 3); two families in which a passed governance proposal changes rewardPerPower in mid-history (7->11 keeping the parameter version, 7->2 with a new version), with one restart around the applying height. "+
+				"C13 families: staking changes in blocks 2-3 (so that the 4-block provenance lag is crossed inside the 9-block horizon) x per-block signing patterns of the 3 validators (absent-signer slot of every block) x withdrawal requests {0, 1, exact, exact+1, twice in a block, excessive, by an account without rewards}; D<=2 (thorough 3); a 260-block history with issuance, withdrawals and missed signatures around height 256; two families in which a passed governance proposal changes rewardPerPower in mid-history (7->11 keeping the parameter version, 7->2 with a new version), with one restart around the applying height. "+
 					"Oracle: issuance in block B to owner O = sum over validators that signed B-1 of power x rewardPerPower over O's stakes in the stake list from which consensus derived that validator's voting power (version B-4; the genesis list for B<=4 - the harness knows the provenance because it IS the consensus engine); nobody else's record changes; withdrawable = issued - withdrawn at every height; a withdrawal succeeds only if requested <= withdrawable at that moment and credits exactly the requested amount.")}
 	})
 }
@@ -554,6 +570,16 @@ func init() {
 			return h
 		}, Menu: []sim.TxSpec{stk("U1", "V1", "1R")}, WithEnv: true, NAppend: 1, MaxD: 2, MaxDTh: 2,
 			Core: func(ss *slotSet, s slot, ch int) bool { return s.kind == slotAbsent }})
+		// a LONG chain: evidence and missed signatures around height 256 with an open proposal (window bookkeeping by height)
+		fams = append(fams, family{Name: "slash-jail/across-height-256", Base: func() sim.History {
+			b := c14History(genesis3s())
+			h := sim.History{Gen: b.Gen, Blocks: []sim.Block{b.Blocks[0]}}
+			h.Blocks = append(h.Blocks, emptyBlocks(250)...) // heights 2..251
+			h.Blocks = append(h.Blocks, blk(prop("V0", 1, 3, 1, `{"gasPrice":"4"}`, `{"gasPrice":"5"}`)), blk(vote("V1", 0, 0), vote("V2", 0, 1)))
+			h.Blocks = append(h.Blocks, emptyBlocks(6)...)
+			return h
+		}, Menu: []sim.TxSpec{stk("U1", "V1", "1R")}, WithEnv: true, NAppend: 1, MaxD: 2, MaxDTh: 2, OnlyBlocks: []int{253, 254, 255, 256, 257},
+			Core: func(ss *slotSet, s slot, ch int) bool { return s.kind == slotAbsent || (s.kind == slotEvidence && ch == 1) }, Restarts: []int64{255}})
 		return &modelCheck{id: "C14", owners: map[string]bool{"C14": true}, families: fams, extra: slashFrame,
 			meta: modelMeta("deviation-bounded exhaustive exploration of evidence / missed-signature sequences with reference model (amounts) and per-block frame condition",
 				"C14 families: a validator with stakes of power 10,1,2,3 (so that rounding and forfeiture fire) and another with 8,5, an open two-option proposal with the offenders' votes, slash ratio in {1,33,50,100}, (window,minimum) in {(3,2),(2,2),(4,1)}; per-block evidence entry from {V1, unknown address, V2, V1 twice, V1+V2, a non-validator} and per-block missed-signature pattern, in every pair of blocks (thorough: triples); two families whose base history has a validator miss signatures on both sides of a node restart (restart after height 4, 5 or 6; window/minimum (3,2) and (4,2)). "+
@@ -690,9 +716,17 @@ func init() {
 			h.Blocks[4].Txs = []sim.TxSpec{vote("V2", 0, 1)}
 			return h
 		}, Menu: c15Menu(), WithEnv: true, NAppend: 1, TxSlots: true, MaxD: 1, MaxDTh: 2})
+		// a LONG chain: a proposal whose window, close and application straddle height 256 (one-byte roll-over of a height)
+		fams = append(fams, family{Name: "governance/across-height-256", Base: func() sim.History {
+			h := sim.History{Gen: genesis3(), Blocks: []sim.Block{blk(), blk(stk("V3", "V3", "11R"))}}
+			h.Blocks = append(h.Blocks, emptyBlocks(250)...) // heights 3..252
+			h.Blocks = append(h.Blocks, blk(prop("V0", 1, 2, 1, `{"gasPrice":"5"}`, `{"gasPrice":"6"}`)), blk(vote("V0", 0, 0), vote("V1", 0, 0)), blk(vote("V2", 0, 1)))
+			h.Blocks = append(h.Blocks, emptyBlocks(6)...)
+			return h
+		}, Menu: c15Menu()[:12], NAppend: 1, MaxD: 1, MaxDTh: 2, OnlyBlocks: []int{252, 253, 254, 255, 256, 257, 258}, Restarts: []int64{254, 256}})
 		return &modelCheck{id: "C15", owners: map[string]bool{"C15": true}, families: fams, extra: govProbe,
 			meta: modelMeta("deviation-bounded exhaustive history exploration with reference model of proposals, votes, tally and timed application",
-				"C15 families: 0-3 inserted governance transactions per block from a 28-template menu (proposals by validator / later-joined validator / delegator / stranger with start-period-applying heights from {invalid-early, minimal, later, too long, applying too early}, option documents {one field, several fields, two options, empty}; votes and re-votes by snapshot members, a validator that joined later, outsiders, bad choice; votes and a proposal that only reach the mempool check (CheckTx, never delivered); stake changes meanwhile), evidence against voters, a family with two passed proposals applying at the SAME height, one whose applying height lies several blocks after the close (parameters must not move before it), one in which votes trickle in over two blocks without reaching the majority, and one in which a passed proposal changes the voting-period limits and the applying delay themselves (later proposals valid under exactly one of the two parameter sets); 10 blocks; D<=2 (thorough 3). "+
+				"C15 families: 0-3 inserted governance transactions per block from a 28-template menu (proposals by validator / later-joined validator / delegator / stranger with start-period-applying heights from {invalid-early, minimal, later, too long, applying too early}, option documents {one field, several fields, two options, empty}; votes and re-votes by snapshot members, a validator that joined later, outsiders, bad choice; votes and a proposal that only reach the mempool check (CheckTx, never delivered); stake changes meanwhile), evidence against voters, a family with two passed proposals applying at the SAME height, one whose applying height lies several blocks after the close (parameters must not move before it), one in which votes trickle in over two blocks without reaching the majority, and one in which a passed proposal changes the voting-period limits and the applying delay themselves (later proposals valid under exactly one of the two parameter sets), and a 260-block history whose proposal window, close and application straddle height 256; 10 blocks otherwise; D<=2 (thorough 3). "+
 					"Oracle: success conditions as necessary conditions (proposer in the validator set last reported, voter in the snapshot with the power recorded then, height inside the window, one vote per voter - the latest replaces); tally from the snapshot powers; pass iff at close some option >= floor(2T/3) of the recorded total; parameters unchanged before the applying height; after application every field the option leaves unset keeps its value (also relative to a second proposal applied in the same block); parameters in force == gov_params query == model at every height.")}
 	})
 }
